@@ -328,6 +328,105 @@ static void do_topo(char *line)
   hwloc_topology_destroy(t);
 }
 
+/* ---------------- class strings, memory tiers, type_sscanf_as_depth ---------------- */
+static void do_clsweep(int lo, int hi)
+{
+  int id;
+  for (id = lo; id < hi; id++) {
+    struct hwloc_obj o; union hwloc_obj_attr_u a; char b[256];
+    memset(&o, 0, sizeof o); memset(&a, 0, sizeof a); o.attr = &a; o.type = HWLOC_OBJ_PCI_DEVICE;
+    a.pcidev.class_id = (unsigned short) id;
+    hwloc_obj_attr_snprintf(b, sizeof b, &o, " ", HWLOC_OBJ_SNPRINTF_FLAG_MORE_ATTRS);
+    printf("cls %d ", id); hexout((unsigned char *) b, strlen(b)); putchar('\n');
+  }
+}
+
+/* HWLOC_MEMTIERS="0x1=<name>" forces the tier of NUMA node 0: its subtype becomes
+ * hwloc_memory_tier_type_snprintf(hwloc_memory_tier_type_sscanf(name)) (NULL: left unset) */
+static void do_tier(const char *hex)
+{
+  char *name = unhex_str(hex), *env; hwloc_topology_t t; hwloc_obj_t n0, n1;
+  env = malloc(strlen(name) + 8); sprintf(env, "0x1=%s", name);
+  setenv("HWLOC_MEMTIERS", env, 1);
+  hwloc_topology_init(&t); hwloc_topology_set_synthetic(t, "node:2 pu:1");
+  printf("tier %s -> ", hex);
+  if (hwloc_topology_load(t) < 0) printf("LOADFAIL");
+  else {
+    n0 = hwloc_get_obj_by_type(t, HWLOC_OBJ_NUMANODE, 0); n1 = hwloc_get_obj_by_type(t, HWLOC_OBJ_NUMANODE, 1);
+    if (n0->subtype) hexout((unsigned char *) n0->subtype, strlen(n0->subtype)); else printf("NULL");
+    if (n1->subtype) printf(" OTHER-NODE-MARKED");
+  }
+  putchar('\n');
+  hwloc_topology_destroy(t); unsetenv("HWLOC_MEMTIERS"); free(env); free(name);
+}
+
+static hwloc_topology_t cur_topo; static char cur_src[4096];
+static hwloc_topology_t get_topo(const char *src)
+{
+  char tmp[4096]; char *p; int err;
+  if (cur_topo && !strcmp(src, cur_src)) return cur_topo;
+  if (cur_topo) { hwloc_topology_destroy(cur_topo); cur_topo = NULL; }
+  hwloc_topology_init(&cur_topo);
+  hwloc_topology_set_all_types_filter(cur_topo, HWLOC_TYPE_FILTER_KEEP_ALL);
+  snprintf(tmp, sizeof tmp, "%s", src);
+  if (!strncmp(tmp, "synthetic_", 10)) { for (p = tmp; *p; p++) if (*p == '_') *p = ' '; err = hwloc_topology_set_synthetic(cur_topo, tmp + 10); }
+  else if (!strncmp(tmp, "xml_", 4)) err = hwloc_topology_set_xml(cur_topo, tmp + 4);
+  else err = -1;
+  if (err < 0 || hwloc_topology_load(cur_topo) < 0) { hwloc_topology_destroy(cur_topo); cur_topo = NULL; cur_src[0] = 0; return NULL; }
+  snprintf(cur_src, sizeof cur_src, "%s", src);
+  return cur_topo;
+}
+/* what the two functions read of the topology, and the type text of every normal level */
+static void do_lv(const char *src)
+{
+  hwloc_topology_t t = get_topo(src); int d, depth; unsigned ty;
+  if (!t) { printf("lv %s LOADFAIL\n", src); return; }
+  depth = hwloc_topology_get_depth(t);
+  printf("lv %s levels=", src);
+  for (d = 0; d < depth; d++) {
+    hwloc_obj_t o = hwloc_get_obj_by_depth(t, d, 0);
+    printf("%s%u:%u", d ? "," : "", (unsigned) o->type, o->type == HWLOC_OBJ_GROUP ? o->attr->group.depth : 0u);
+  }
+  printf(" tdepths=");
+  for (ty = 0; ty < HWLOC_OBJ_TYPE_MAX; ty++) printf("%s%d", ty ? "," : "", hwloc_get_type_depth(t, (hwloc_obj_type_t) ty));
+  printf(" texts=");
+  for (d = 0; d < depth; d++) {
+    char b[64]; hwloc_obj_t o = hwloc_get_obj_by_depth(t, d, 0);
+    hwloc_obj_type_snprintf(b, sizeof b, o, 0); printf("%s", d ? "," : ""); hexout((unsigned char *) b, strlen(b));
+    hwloc_obj_type_snprintf(b, sizeof b, o, HWLOC_OBJ_SNPRINTF_FLAG_LONG_NAMES); putchar('/'); hexout((unsigned char *) b, strlen(b));
+  }
+  putchar('\n');
+}
+static void do_sad(char *line)
+{
+  char src[4096], lv[8192], td[512], hex[4096]; hwloc_topology_t t; char *s; size_t n; unsigned char *raw;
+  hwloc_obj_type_t type = (hwloc_obj_type_t) 77; int depth = -99, depth2 = -99, r, r2;
+  if (sscanf(line, "sad %4095s %8191s %511s %4095s", src, lv, td, hex) != 4) { printf("sad BAD\n"); return; }
+  t = get_topo(src);
+  if (!t) { printf("sad %s %s -> LOADFAIL\n", src, hex); return; }
+  raw = malloc(strlen(hex) / 2 + 1); n = unhex(hex, raw, strlen(hex) / 2 + 1);
+  s = malloc(n + 1); memcpy(s, raw, n); s[n] = 0;
+  r = hwloc_type_sscanf_as_depth(s, &type, t, &depth);
+  r2 = hwloc_type_sscanf_as_depth(s, NULL, t, &depth2);      /* typep may be NULL */
+  printf("sad %s %s -> ", src, hex);
+  if (r < 0) printf("-1%s", (type != 77 || depth != -99) ? " STORED" : "");
+  else printf("0 type=%u depth=%d", (unsigned) type, depth);
+  if (r2 != r || depth2 != depth) printf(" NULLTYPEP-DIFFERS(%d,%d)", r2, depth2);
+  putchar('\n');
+  free(s); free(raw);
+}
+static void do_gtd(char *line)
+{
+  char src[4096], lv[8192], td[512], gd[32]; unsigned ty; unsigned long asz; hwloc_topology_t t; union hwloc_obj_attr_u a; int d;
+  if (sscanf(line, "gtd %4095s %8191s %511s %u %31s %lu", src, lv, td, &ty, gd, &asz) != 6) { printf("gtd BAD\n"); return; }
+  t = get_topo(src);
+  if (!t) { printf("gtd %s -> LOADFAIL\n", src); return; }
+  memset(&a, 0xa5, sizeof a);
+  if (gd[0] != '-') a.group.depth = (unsigned) strtoul(gd, NULL, 10);
+  d = hwloc_get_type_depth_with_attr(t, (hwloc_obj_type_t) ty, gd[0] == '-' ? NULL : &a, (size_t) asz);
+  printf("gtd %s %u %s %lu -> %d\n", src, ty, gd, asz, d);
+}
+
 int main(void)
 {
   static char line[1 << 20];
@@ -362,7 +461,13 @@ int main(void)
       printf("q lnk %a ", (double) f); hexout((unsigned char *) lt, strlen(lt)); putchar('\n');
     }
     else if (!strncmp(line, "topo ", 5)) do_topo(line);
+    else if (sscanf(line, "clsweep %d %d", &a, &b) == 2) do_clsweep(a, b);
+    else if (!strncmp(line, "tier ", 5)) { char h[4096]; if (sscanf(line + 5, "%4095s", h) == 1) do_tier(h); }
+    else if (!strncmp(line, "lv ", 3)) { char h[4096]; if (sscanf(line + 3, "%4095s", h) == 1) do_lv(h); }
+    else if (!strncmp(line, "sad ", 4)) do_sad(line);
+    else if (!strncmp(line, "gtd ", 4)) do_gtd(line);
     fflush(stdout);   /* so that the last answered line identifies a crashing case */
   }
+  if (cur_topo) hwloc_topology_destroy(cur_topo);
   return 0;
 }
